@@ -119,7 +119,7 @@ SPECS = {
     "C07": engine_spec("C07", r"(p\d+\.\d+|e\.|v\d+\.(overspread|uprice|open)|if\.)",
                        shards(8, 40, prof="liq") + shards(6, 40, prof="drain") + shards(2, 20, "-", "real", "liq"),
                        shards(12, 150, prof="liq") + shards(6, 150, prof="drain") + shards(4, 100, "-", "real", "liq")),
-    "C10": Spec("C10", [Family("engine", shards(10, 40), shards(14, 150)), fam("forge", 6, 40)],
+    "C10": Spec("C10", [Family("engine", shards(10, 40), shards(14, 150)), fam("forge", 24, 80)],
                 merged((("engine", "forge"), mon_engine.monitor_for("C10"))),
                 ENGINE_RULE + "; plus the key-collision scenario: position keys are sha3(vamm || trader) without separator, an account whose address is a suffix of a trader's address "
                 "calls every position-touching entry point naming a forged vAMM string that completes the collision",
@@ -146,7 +146,7 @@ SPECS = {
                 "exhaustive matrix: 24 privileged messages of the five contracts x 12 senders (owner, new owner, stranger, four traders, engine, insurance fund, vAMM, fee pool, liquidator) "
                 "x five role layouts (initial; all roles moved to one account; every role held by a different account; only the pauser moved; only the engine owner moved), on generated deployments (real and mock feed); refusal must leave the storage/balance fingerprint unchanged",
                 r"(result|e\.(owner|pauser|pause|wl|plr)|v\d+\.(owner|open|holdcap)|if\.|fp\.|feed\.)"),
-    "C13": Spec("C13", [fam("twin", 16, 120)], mon_more.c13,
+    "C13": Spec("C13", [Family("twin", [["12"]] * 8, [["60"]] * 16)], mon_more.c13,
                 "twin deployments (cw20 / native, equal decimals and parameters, with and without fees) driven through the same history; each native call attaches exactly what the cw20 "
                 "deployment pulls from the caller; compared step by step: ok/err, every position, vAMM state, every balance",
                 r"(result|bal\.|p\d+\.|v\d+\.(q|b|total)|e\.(oi|baddebt|sentfunds))"),
